@@ -12,12 +12,50 @@
    settings, of every such element are unchanged (the fix 2354c90 closed F16), however often it is
    repeated (C11_read_repeatable), and the observers len / iteration / to_er7 do not touch the store
    at all (C11_observers_pure).  Together with C10 (the traversal children are never listed).
-   The second sentence of the property (the first write creates exactly the elements of the chain) is
-   checked by computed instances here (C11_write_materialises_instance) and by the oracle of
-   harness/c11.py; a general theorem is not attempted. *)
+
+   The second sentence of the property (assigning a value at the end of a chain of missing elements
+   creates the elements of the chain) is C11_write_materialises, for the form
+       x.n1.n2...nk.value = text            (Model/Heap.v write_value)
+   from ANY store s with
+     Inv s                        the C10 invariant,
+     Tidy s                       (Proofs/HeapChain.v) every element indexed as a traversal child is
+                                  still waiting (points at its owner through the traversal parent, has
+                                  no parent, lists no children), and children are of a class below
+                                  their owner's,
+     x allocated and not itself waiting under a traversal parent:
+   if the statement ends normally there is a chain l (leaf first, at least one element per name) with
+     chain_written: every element of l is a LISTED child of its predecessor (the last one of x), points
+                    at it, and is no longer in its traversal index; Inv holds again; elements outside
+                    the chain keep class, name, both parents, children and index; the existing chain
+                    elements keep their children and gain chain elements only; nothing is renamed;
+     leaf_written:  a subcomponent leaf holds the text as its value; a field / component leaf lists
+                    exactly one fresh child per component the parser splits the text into.
+   C11_write_chain_abs restates the chain through abs.  The instance C11_write_materialises_nonvacuous
+   shows all hypotheses hold of a v2.5 PID after a read (part of the chain waiting, part missing) and
+   exhibits chain and encoding.
+   Side conditions and exceptions, each stated:
+     - Tidy cannot be dropped: C11_write_materialises_untidy_refuted (a waiting field that lists a
+       component: the write ends normally, the segment still encodes as "PID");
+     - `.value = None`: C11_write_none_materialises - ends normally on a subcomponent leaf only, the
+       chain is materialised all the same and the leaf holds the empty value; on a field / component
+       leaf it raises AFTER the promotion (C11_write_none_raises_after_promotion);
+     - exotic = false (no late VARIES naming, no non-idempotent lookup): C11_write_materialises_hl7apy
+       transfers the theorem to the model as hl7apy runs whenever both settings agree on the call
+       (checked on every history by harness/c11.py);
+     - MSH_1 / MSH_2 (own value setters) and Segment.value are outside Model/Heap.v: oracle only.
+   The by-name form  x.n1...nk = text  (write_chain, k >= 2) attaches the new child to the element the
+   chain n1...n(k-1) leads to and promotes afterwards: C11_assign_materialises - under the same
+   hypotheses, whenever the direct path (the last name is taken as a child name of that element:
+   write_direct, Proofs/HeapAssign.v) ends normally, the assignment has exactly that outcome, the
+   chain is written as above and a fresh child is listed under its leaf.  Not covered by a general
+   theorem: a last name that is a positional path through a field (Field.__setattr__'s second
+   attempt after ChildNotFound), and right-hand sides other than text (elements, proxies, datatype
+   objects); these are covered by the computed instances and by the oracle of harness/c11.py. *)
 From Coq Require Import List Bool Arith Lia ZArith NArith Init.Byte.
 From HL7 Require Import Lib.Str Model.Ec Model.Result Model.Ref Model.Tree Model.Leaf Model.Heap Model.HeapSpec Gen.Params.
-From HL7 Require Import Proofs.HeapFacts Proofs.HeapInv Proofs.HeapAtomic Proofs.HeapRead.
+From HL7 Require Import Proofs.HeapFacts Proofs.HeapInv Proofs.HeapOps Proofs.HeapSteps Proofs.HeapStep Proofs.HeapAtomic
+                        Proofs.HeapRead Proofs.HeapWrite Proofs.HeapChain Proofs.HeapLeaf Proofs.HeapMaterialise
+                        Proofs.HeapAssign.
 From HL7 Require Gen.Tables_v2_5.
 Import ListNotations.
 Open Scope bs_scope.
@@ -129,4 +167,191 @@ Example C11_write_materialises_instance :
   listed3 (run25 init_rstate (pid ++ [w; w])) = 3 /\
   listed3 (run25 init_rstate (pid ++ [w; OSetAttr 0 (nm ["pid_3"; "cx_4"; "hd_2"]) (HText "u")])) = 4 /\
   fst (enc2 (run25 init_rstate (pid ++ [w; OSetAttr 0 (nm ["pid_3"; "cx_4"; "hd_2"]) (HText "u")]))) = unbs "PID|||^^^v&u".
+Proof. vm_compute. repeat split. Qed.
+
+(* ---------- the first write materialises the chain ---------- *)
+
+Theorem C11_write_materialises :
+  forall (t : tables) (e : ec) (le : level -> option str -> str -> result str)
+         (x : nat) (names : list str) (text : str) (s s' : store),
+    Inv s -> Tidy s -> x < s_next s -> n_tparent (getn s x) = None ->
+    write_value t e le false x names text s = (s', Ok tt) ->
+    exists l, chain_written s s' x names l /\ leaf_written t e le (s_next s) s' (hd x l) text.
+Proof. exact write_value_materialises. Qed.
+Print Assumptions C11_write_materialises.
+
+(* the model exactly as hl7apy runs *)
+Theorem C11_write_materialises_hl7apy :
+  forall (t : tables) (e : ec) (le : level -> option str -> str -> result str)
+         (x : nat) (names : list str) (text : str) (s s' : store),
+    write_value t e le true x names text s = write_value t e le false x names text s ->
+    Inv s -> Tidy s -> x < s_next s -> n_tparent (getn s x) = None ->
+    write_value t e le true x names text s = (s', Ok tt) ->
+    exists l, chain_written s s' x names l /\ leaf_written t e le (s_next s) s' (hd x l) text.
+Proof. exact write_value_materialises_hl7apy. Qed.
+Print Assumptions C11_write_materialises_hl7apy.
+
+(* through abs: element i of the chain is, under its own name, among the children of element i+1 (x
+   after the last); outside the chain the children are as before, and the chain elements that existed
+   keep all of theirs *)
+Theorem C11_write_chain_abs :
+  forall (s s' : store) (x : nat) (names : list str) (l : list nat),
+    Inv s -> chain_written s s' x names l ->
+    (forall i, i < length l -> In (n_name (getn s' (nth i l x)), nth i l x) (abs s' (nth (S i) l x))) /\
+    (forall y, y < s_next s -> ~ In y (l ++ [x]) -> abs s' y = abs s y) /\
+    (forall q kc, q < s_next s -> q <> hd x l -> In kc (abs s q) -> In kc (abs s' q)).
+Proof. exact write_chain_abs. Qed.
+Print Assumptions C11_write_chain_abs.
+
+(* x.n1...nk.value = None *)
+Theorem C11_write_none_materialises :
+  forall (t : tables) (le : level -> option str -> str -> result str)
+         (x : nat) (names : list str) (s s' : store),
+    Inv s -> Tidy s -> x < s_next s -> n_tparent (getn s x) = None ->
+    write_value_none t le false x names s = (s', Ok tt) ->
+    exists l, chain_written s s' x names l /\
+              n_cls (getn s' (hd x l)) = CSub /\ n_value (getn s' (hd x l)) = [] /\ n_enc (getn s' (hd x l)) = [].
+Proof. exact write_value_none_materialises. Qed.
+Print Assumptions C11_write_none_materialises.
+
+(* x.n1...nk = text, k >= 2 *)
+Theorem C11_assign_materialises :
+  forall (t : tables) (e : ec) (le : level -> option str -> str -> result str)
+         (x : nat) (names : list str) (txt : str) (s s' : store),
+    Inv s -> Tidy s -> x < s_next s -> n_tparent (getn s x) = None ->
+    write_direct t e le x names txt s = (s', Ok tt) ->
+    write_chain t e le false x names (VText txt) s = (s', Ok tt) /\
+    exists l child, chain_written s s' x (removelast names) l /\
+                    In child (n_list (getn s' (hd x l))) /\ s_next s <= child.
+Proof. exact assign_materialises_chain. Qed.
+Print Assumptions C11_assign_materialises.
+
+(* ---------- non-vacuity: a v2.5 PID on which pid_3.cx_4.hd_2 has been read ---------- *)
+
+Definition pid_read : list op := [ONewSeg TOLERANT "PID"; OReadValue 0 (nm ["pid_3"; "cx_4"; "hd_2"])].
+Definition s_read : store := r_store (run_hist t25 e25 le25 false init_rstate pid_read).
+Definition hd1 : list str := nm ["pid_3"; "cx_4"; "hd_1"].
+
+Lemma s_read_inv : Inv s_read.
+Proof.
+  assert (H : RInv (run_hist t25 e25 le25 false init_rstate pid_read)).
+  { apply hist_inv; [exact RInv_init|]. vm_compute. repeat split; auto. }
+  exact (proj1 H).
+Qed.
+
+(* the field and the component are waiting (1, 2), hd_2 is waiting (3), hd_1 is missing: the write
+   takes the waiting elements, creates element 4 and lists 1 under the segment, 2 under 1, 4 under 2;
+   hd_2 stays where it was *)
+Example C11_write_materialises_nonvacuous :
+  Inv s_read /\ Tidy s_read /\ 0 < s_next s_read /\ n_tparent (getn s_read 0) = None /\
+  write_value t25 e25 le25 true 0 hd1 (unbs "v") s_read = write_value t25 e25 le25 false 0 hd1 (unbs "v") s_read /\
+  exists s', write_value t25 e25 le25 false 0 hd1 (unbs "v") s_read = (s', Ok tt) /\
+    (exists l, chain_written s_read s' 0 hd1 l /\ leaf_written t25 e25 le25 (s_next s_read) s' (hd 0 l) (unbs "v")) /\
+    n_list (getn s_read 0) = [] /\
+    (n_list (getn s' 0), n_list (getn s' 1), n_list (getn s' 2), n_value (getn s' 4)) = ([1], [2], [4], unbs "v") /\
+    members (n_tidx (getn s' 2)) = [3] /\
+    to_er7 t25 e25 s' 0 false = unbs "PID|||^^^v".
+Proof.
+  assert (I : Inv s_read) by exact s_read_inv.
+  assert (T : Tidy s_read) by (apply tidy_b_ok; vm_compute; reflexivity).
+  assert (H0 : 0 < s_next s_read) by (apply Nat.ltb_lt; vm_compute; reflexivity).
+  assert (Ht : n_tparent (getn s_read 0) = None) by (vm_compute; reflexivity).
+  refine (conj I (conj T (conj H0 (conj Ht (conj _ _))))); [vm_compute; reflexivity|].
+  exists (fst (write_value t25 e25 le25 false 0 hd1 (unbs "v") s_read)).
+  assert (E : write_value t25 e25 le25 false 0 hd1 (unbs "v") s_read =
+              (fst (write_value t25 e25 le25 false 0 hd1 (unbs "v") s_read), Ok tt)).
+  { assert (Es : snd (write_value t25 e25 le25 false 0 hd1 (unbs "v") s_read) = Ok tt) by (vm_compute; reflexivity).
+    rewrite (surjective_pairing (write_value t25 e25 le25 false 0 hd1 (unbs "v") s_read)) at 1. now rewrite Es. }
+  split; [exact E|]. split; [exact (C11_write_materialises _ _ _ _ _ _ _ _ I T H0 Ht E)|].
+  vm_compute. repeat split.
+Qed.
+
+(* the same store, by name: seg.pid_3.cx_4.hd_1 = 'v' *)
+Example C11_assign_materialises_nonvacuous :
+  write_chain t25 e25 le25 true 0 hd1 (VText (unbs "v")) s_read = write_chain t25 e25 le25 false 0 hd1 (VText (unbs "v")) s_read /\
+  exists s', write_direct t25 e25 le25 0 hd1 (unbs "v") s_read = (s', Ok tt) /\
+    (write_chain t25 e25 le25 false 0 hd1 (VText (unbs "v")) s_read = (s', Ok tt) /\
+     exists l child, chain_written s_read s' 0 (removelast hd1) l /\
+                     In child (n_list (getn s' (hd 0 l))) /\ s_next s_read <= child) /\
+    (n_list (getn s' 0), n_list (getn s' 1), n_list (getn s' 2), n_value (getn s' 4)) = ([1], [2], [4], unbs "v") /\
+    to_er7 t25 e25 s' 0 false = unbs "PID|||^^^v".
+Proof.
+  split; [vm_compute; reflexivity|].
+  exists (fst (write_direct t25 e25 le25 0 hd1 (unbs "v") s_read)).
+  assert (E : write_direct t25 e25 le25 0 hd1 (unbs "v") s_read =
+              (fst (write_direct t25 e25 le25 0 hd1 (unbs "v") s_read), Ok tt)).
+  { assert (Es : snd (write_direct t25 e25 le25 0 hd1 (unbs "v") s_read) = Ok tt) by (vm_compute; reflexivity).
+    rewrite (surjective_pairing (write_direct t25 e25 le25 0 hd1 (unbs "v") s_read)) at 1. now rewrite Es. }
+  split; [exact E|]. split.
+  - apply C11_assign_materialises; [exact s_read_inv|apply tidy_b_ok; vm_compute; reflexivity|
+                                   apply Nat.ltb_lt; vm_compute; reflexivity|vm_compute; reflexivity|exact E].
+  - vm_compute. repeat split.
+Qed.
+
+(* ---------- Tidy cannot be dropped ---------- *)
+
+(* a waiting field (1, indexed as traversal child of the segment) that lists a component (2) *)
+Definition s_limbo : store :=
+  let sA := r_store (run_hist t25 e25 le25 false init_rstate [ONewSeg TOLERANT "PID"]) in
+  let sB := fst (create_element t25 le25 false 0 (unbs "PID_3") true None sA) in
+  fst (create_element t25 le25 false 1 (unbs "CX_4") false None sB).
+
+Lemma s_limbo_inv : Inv s_limbo.
+Proof.
+  unfold s_limbo. cbv zeta.
+  set (sA := r_store (run_hist t25 e25 le25 false init_rstate [ONewSeg TOLERANT "PID"])).
+  assert (IA : Inv sA).
+  { assert (H : RInv (run_hist t25 e25 le25 false init_rstate [ONewSeg TOLERANT "PID"])).
+    { apply hist_inv; [exact RInv_init|]. vm_compute. repeat split; auto. }
+    exact (proj1 H). }
+  set (sB := fst (create_element t25 le25 false 0 (unbs "PID_3") true None sA)).
+  assert (IB : Inv sB).
+  { assert (H0 : 0 < s_next sA) by (apply Nat.ltb_lt; vm_compute; reflexivity).
+    pose proof (create_element_spec' t25 le25 Unone Unone 0 (unbs "PID_3") true None sA (conj (K_none sA IA) H0)) as H.
+    unfold sB. destruct (create_element t25 le25 false 0 (unbs "PID_3") true None sA) as [s1 [c|y]]; cbn [fst].
+    - destruct H as (H & _). now apply K_Inv in H.
+    - now apply K_Inv in H. }
+  assert (H1 : 1 < s_next sB) by (apply Nat.ltb_lt; vm_compute; reflexivity).
+  pose proof (create_element_spec' t25 le25 Unone Unone 1 (unbs "CX_4") false None sB (conj (K_none sB IB) H1)) as H.
+  destruct (create_element t25 le25 false 1 (unbs "CX_4") false None sB) as [s1 [c|y]]; cbn [fst].
+  - destruct H as (H & _). now apply K_Inv in H.
+  - now apply K_Inv in H.
+Qed.
+
+Theorem C11_write_materialises_untidy_refuted :
+  Inv s_limbo /\ 0 < s_next s_limbo /\ n_tparent (getn s_limbo 0) = None /\ ~ Tidy s_limbo /\
+  exists s', write_value t25 e25 le25 false 0 (nm ["pid_3"; "cx_4"]) (unbs "v") s_limbo = (s', Ok tt) /\
+             write_value t25 e25 le25 true 0 (nm ["pid_3"; "cx_4"]) (unbs "v") s_limbo =
+             write_value t25 e25 le25 false 0 (nm ["pid_3"; "cx_4"]) (unbs "v") s_limbo /\
+             to_er7 t25 e25 s' 2 false = unbs "v" /\ to_er7 t25 e25 s' 0 false = unbs "PID" /\
+             ~ exists l, chain_written s_limbo s' 0 (nm ["pid_3"; "cx_4"]) l.
+Proof.
+  split; [exact s_limbo_inv|]. split; [apply Nat.ltb_lt; vm_compute; reflexivity|]. split; [vm_compute; reflexivity|].
+  split.
+  - intros T. assert (H0 : 0 < s_next s_limbo) by (apply Nat.ltb_lt; vm_compute; reflexivity).
+    assert (Hm : In 1 (members (n_tidx (getn s_limbo 0)))) by (vm_compute; auto).
+    destruct (T_trav _ T 0 1 H0 Hm) as (_ & _ & E). vm_compute in E. discriminate.
+  - exists (fst (write_value t25 e25 le25 false 0 (nm ["pid_3"; "cx_4"]) (unbs "v") s_limbo)).
+    split; [|split; [vm_compute; reflexivity|split; [vm_compute; reflexivity|split; [vm_compute; reflexivity|]]]].
+    + assert (Es : snd (write_value t25 e25 le25 false 0 (nm ["pid_3"; "cx_4"]) (unbs "v") s_limbo) = Ok tt)
+        by (vm_compute; reflexivity).
+      rewrite (surjective_pairing (write_value t25 e25 le25 false 0 (nm ["pid_3"; "cx_4"]) (unbs "v") s_limbo)) at 1.
+      now rewrite Es.
+    + intros [l W]. pose proof (w_length _ _ _ _ _ W) as Len.
+      assert (Hl : l <> []) by (intros ->; cbn in Len; lia).
+      destruct (chain_listed_root _ _ _ (w_chain _ _ _ _ _ W) Hl) as (c & _ & (Hc & _)).
+      vm_compute in Hc. exact Hc.
+Qed.
+Print Assumptions C11_write_materialises_untidy_refuted.
+
+(* ---------- .value = None on a field / component leaf raises after the promotion ---------- *)
+
+Example C11_write_none_raises_after_promotion :
+  let r := write_value_none t25 le25 true 0 (nm ["pid_3"; "cx_4"]) s_read in
+  snd r = Err (Crash AttributeError) /\
+  to_er7 t25 e25 s_read 0 false = unbs "PID" /\ to_er7 t25 e25 (fst r) 0 false = unbs "PID|||^^^" /\
+  (n_list (getn (fst r) 0), n_list (getn (fst r) 1)) = ([1], [2]) /\
+  let r' := write_value_none t25 le25 true 0 hd1 s_read in
+  snd r' = Ok tt /\ (n_list (getn (fst r') 0), n_list (getn (fst r') 1), n_list (getn (fst r') 2)) = ([1], [2], [4]) /\
+  n_value (getn (fst r') 4) = [].
 Proof. vm_compute. repeat split. Qed.
